@@ -135,10 +135,14 @@ def check(ctx):
              'instead of being resolved or reported' % gsa.show(ps.cond)[:200], detail=gsa.show(ps.cond)[:200])
     if not mcalls:
         raise AnalysisError('no match call')
+
+    def is_pat_loop(l):
+        """a loop over the outstanding patterns: the dict itself, its keys or its items (possibly copied into a list)"""
+        return re.match(r'^(list\()?%s(\.items\(\)|\.keys\(\))?\)?$' % re.escape(pname), l) is not None
     outp = [a_.arg for a_ in g.args.args][-1]
     for mc in mcalls:
         lp = mc.loops
-        okl = len(lp) == 3 and lp[0] == '%s.splitlines()' % outp and re.match(r'^\w+\.split\(\)$', lp[1]) and lp[2] == '%s.items()' % pname
+        okl = len(lp) == 3 and lp[0] == '%s.splitlines()' % outp and re.match(r'^\w+\.split\(\)$', lp[1]) and is_pat_loop(lp[2])
         r2.check(lp[:1] == ('%s.splitlines()' % outp,), 'lines in listed order', rel, mc.line, 'lines are not walked in the order listed: %s' % (lp[:1],))
         r2.check(bool(okl), 'words then outstanding patterns', rel, mc.line,
                  'match is not tried for every whitespace-separated word against every outstanding pattern: %s' % (lp,), detail=list(lp))
@@ -150,13 +154,13 @@ def check(ctx):
     # on match: delete the pattern, append the matched word, stop trying patterns for this word
     dels = [e for e in G.effects if e.kind == 'del' and re.match(r'^%s\[\w+\]$' % re.escape(pname), e.target)]
     MATCHED = r'\.match\(\w+\)( is None)?$'
-    r2.check(len(dels) >= 1 and all(gsa.impossible(G, e, [(MATCHED, 'A')]) and ('%s.items()' % pname) in e.loops for e in dels), 'satisfied request removed', rel, dels[0].line if dels else g.lineno,
+    r2.check(len(dels) >= 1 and all(gsa.impossible(G, e, [(MATCHED, 'A')]) and any(re.match(r'^\w+\.split\(\)$', l) for l in e.loops) for e in dels), 'satisfied request removed', rel, dels[0].line if dels else g.lineno,
              'a satisfied request stays outstanding (later files could replace the first listed one): deletions %s' % [(e.target, e.when()[:100]) for e in dels])
     appends = [e for e in G.effects if e.kind == 'call' and e.target.endswith('.append') and e.args and (re.search(r'\.match\(\w+\)\.group\(0?\)$', e.args[0]) or
                                                                                                          (mcalls and e.args[0] == mcalls[0].args[0]))]
     r2.check(len(appends) >= 1 and all(gsa.impossible(G, e, [(MATCHED, 'A')]) for e in appends), 'whole matched word recorded', rel, appends[0].line if appends else g.lineno,
              'recorded values: %s' % [e.value for e in G.effects if e.kind == 'call' and e.target.endswith('.append')])
-    stops = [e for e in G.effects if e.kind in ('break', 'return') and ('%s.items()' % pname) in e.loops]
+    stops = [e for e in G.effects if e.kind in ('break', 'return') and any(is_pat_loop(l) for l in e.loops)]
     r2.check(bool(dels) and all(any(gsa.implies(d.cond, x.cond) for x in stops) for d in dels), 'one file satisfies one request', rel, dels[0].line if dels else g.lineno,
              'after a match the remaining patterns are still tried against the same file')
     # base name
@@ -238,7 +242,7 @@ def check(ctx):
              "dlname pattern %r does not accept every file-name character (letters, digits, . _ - +): missing %r"
              % (ptxt, ''.join(missing)), detail={'pattern': ptxt})
     ef = py.func('utils', '_extract_dlname_field')
-    EF = gsa.Summary(py, 'utils', '_extract_dlname_field', inline_only=())
+    EF = gsa.Summary(py, 'utils', '_extract_dlname_field', inline_module_funcs=True)
     src_ = sorted(set(gsa._unparse(n) for g_, n in EF.returns))
     r4.check(len(src_) == 2 and 'None' in src_ and any(re.search(r'^_libtool_pat\.search\(.*\)\.(groups\(\)\[0\]|group\(1\))$', x) for x in src_), 'dlname capture returned', um.rel, ef.lineno,
              '_extract_dlname_field returns %s' % src_)
